@@ -307,3 +307,5 @@ def run(ctx):
     boundaries.check_guards(ctx, 'C17.RG', 'C17')
     from .. import boundaries as _b
     _b.check_predicates(ctx, 'C17.RP', 'C17')
+    from .. import boundaries as _b
+    _b.check_counts(ctx, 'C17.RQ', 'C17')
